@@ -12,6 +12,13 @@ import (
 )
 
 var _ = strconv.Itoa
+
+// spec_atoi: the integer a decimal string denotes (reference implementation; opaque to the engine).
+func spec_atoi(s string) int {
+	n, _ := strconv.Atoi(s)
+	return n
+}
+
 var _ bytes.Buffer
 var _ net.Conn
 var _ textproto.Conn
@@ -74,9 +81,14 @@ func ghost_bufslice(b *bytes.Buffer) []byte { panic("ghost") }
 //@   ensures err == nil && bitSize == 16 ==> -32768 <= n && n <= 32767
 //@   ensures err == nil && bitSize == 8 ==> -128 <= n && n <= 127
 
+// Itoa is injective: spec_atoi is its left inverse.
 //@ ext strconv.Itoa(i int) (r string)
 //@   pure
-//@   ensures len(r) >= 1
+//@   ensures len(r) >= 1 && spec_atoi(r) == i
+
+//@ func spec_atoi
+//@   opaque
+//@   pure
 
 // ghost_bufstr(b): everything written to the buffer so far, as String() returns it.
 func ghost_bufstr(b *bytes.Buffer) string { panic("ghost") }
